@@ -2,11 +2,25 @@
 # Prints the prompt given to an independent sub-agent that seeds a property-breaking change.
 import json, sys
 pid = sys.argv[1]
+rnd = sys.argv[2] if len(sys.argv) > 2 else ""
 for l in open('/verif/properties.jsonl'):
     p = json.loads(l)
     if p['id'] == pid:
         break
-wt = f"/tmp/wt/{pid}"
+wt = f"/tmp/wt/{pid}{rnd}"
+import glob, os
+prev = []
+for d in sorted(glob.glob(f"/verif/seeded/{pid}-m*")):
+    try:
+        n = open(d + "/notes.md").read().strip().splitlines()
+        t = next((x for x in n if x.strip()), "")
+        fs = json.load(open(d + "/meta.json")).get("files", [])
+        prev.append("  - " + t.lstrip("# ").strip()[:160] + " (" + ", ".join(os.path.basename(f) for f in fs) + ")")
+    except Exception:
+        pass
+avoid = ""
+if rnd and prev:
+    avoid = "Mechanisms that were ALREADY used by earlier changes for this property - choose clearly different ones (other functions, other operations, preferably other files):\n" + "\n".join(prev) + "\n\n"
 print(f"""You are working on a scratch git worktree of the C library nanomsg/nng (NNG: Scalability Protocols req/rep, pub/sub, survey, bus, pair, push/pull over inproc/ipc/tcp/socket/ws/udp, with its own aio framework) at {wt}. Work ONLY inside {wt} (do not read or touch /repo or /verif; they are off limits).
 
 Build + test suite (takes ~1-2 min; use at most 6 parallel jobs, the machine is shared):
@@ -23,7 +37,7 @@ Here is a semantic property of nng that users rely on:
 
 YOUR TASK: produce TWO different, independent changes ("mutations") to nng's library source (files under src/ only, never tests) each of which BREAKS this property while the library still compiles and the existing test suite (unedited) still passes. Each change must be realistic - the kind of slip a maintainer could make in a refactor or 'optimisation' (an off-by-one, a dropped check, a wrong comparison, a missing state reset, a lock/ordering change, two sites that each look fine alone) - and must need something SPECIFIC to manifest: a particular interleaving, a fault at a particular point, a multi-step sequence of operations, an unusual input or option value. Do NOT make a change that ordinary use would expose at once (the unit tests must keep passing), and do not make a change that is unobservable through the public API / wire behaviour. Keep each patch small (ideally < 20 changed lines). The two mutations should touch different mechanisms (for example different files or different operations), not be variants of each other. NOTE: the tree may already contain genuine bugs; do not merely point at existing behaviour - your change must turn a passing demonstration into a failing one.
 
-For each mutation k in 1,2 deliver, under {wt}/out/m<k>/ :
+{avoid}For each mutation k in 1,2 deliver, under {wt}/out/m<k>/ :
   patch.diff   - `git diff` of ONLY that mutation against the worktree HEAD (applies with `git apply` to a clean checkout)
   demo.c       - a small standalone C program using nng (public API, or internal headers via -I{wt}/src if the property is about an internal structure) that exits 0 on the unmodified tree and exits non-zero (or crashes / reports under valgrind or ASan) with the patch applied; make it deterministic (no dependence on lucky timing; generous timeouts)
   run.sh       - builds demo.c against {wt}/_build (libnng) and runs it; exit code 0 = property held, non-zero = broken
